@@ -734,6 +734,127 @@ def end_to_end_empty_store(ctx):
     shutil.rmtree(root, ignore_errors=True)
 
 
+# ---------------------------------------------------------------------- store reached through an alias of its directory
+
+ALIAS_HELPER = r"""
+import sys, os, json, shutil
+a = json.loads(sys.argv[1])
+sys.path.insert(0, a["pym"])
+if __name__ == "__main__":
+    from bob.share import LocalShare
+    from bob.utils import hashDirectory, asHexStr
+    out = {}
+    try:
+        share = LocalShare({"path": a["share"], "quota": a["quota"]})
+        if a["op"] == "install":
+            # what Builder._installSharedPackage does for a freshly built package
+            ws = a["ws"]
+            bid = bytes.fromhex(a["bid"])
+            h = hashDirectory(ws)
+            path, installed = share.installSharedPackage(ws, bid, h, True)
+            if not installed:
+                path, _ = share.useSharedPackage(ws, bid)
+            if path is not None:
+                if os.path.lexists(ws):
+                    shutil.rmtree(ws)
+                os.symlink(os.path.join(path, "workspace"), ws)
+            out.update(path=path, installed=installed, hash=asHexStr(h))
+        else:
+            collected = []
+            share.gc(False, True, progress=collected.append)
+            out.update(collected=collected)
+        c = a.get("check")
+        if c:
+            out["check"] = asHexStr(hashDirectory(c)) if os.path.isdir(c) else None
+        out["ok"] = True
+    except BaseException as e:
+        out.update(ok=False, exc="%s: %s" % (type(e).__name__, e))
+    print("RESULT " + json.dumps(out))
+"""
+
+ALIAS_VARIANTS = (("real-then-alias", "store", "alias"), ("alias-then-real", "alias", "store"))
+
+
+def store_alias_case(ctx, variant):
+    """project A installs and links a package through one spelling of the store directory, project B reaches the very same
+    store through another spelling (symlink alias) and collects: automatic gc of an install over the quota, then the
+    equivalent of `bob clean --shared --all-unused`.  A's package is in use, so neither may remove it."""
+    name, via_a, via_b = next(v for v in ALIAS_VARIANTS if v[0] == variant)
+    root = os.path.join(ctx.tmp, "alias-" + name)
+    shutil.rmtree(root, ignore_errors=True)
+    os.makedirs(os.path.join(root, "store"))
+    os.symlink(os.path.join(root, "store"), os.path.join(root, "alias"))
+    helper = os.path.join(root, "alias_helper.py")
+    with open(helper, "w") as f:
+        f.write(ALIAS_HELPER)
+    case = {"kind": "store-alias", "variant": name}
+
+    def mk(proj, payload):
+        base = os.path.join(root, proj, "work", "lib", "dist", "1")
+        os.makedirs(os.path.join(base, "workspace"))
+        with open(os.path.join(base, "workspace", "data.bin"), "wb") as f:
+            f.write(payload)
+        with open(os.path.join(base, "audit.json.gz"), "wb"):
+            pass
+        return os.path.join(base, "workspace")
+
+    def run(**a):
+        a.update(pym=os.path.join(ctx.repo, "pym"), quota="4KiB")
+        try:
+            p = subprocess.run([sys.executable, helper, json.dumps(a)], stdout=subprocess.PIPE, stderr=subprocess.STDOUT,
+                               timeout=120)
+        except subprocess.TimeoutExpired:
+            return None
+        line = next((l for l in p.stdout.decode("utf-8", "replace").splitlines() if l.startswith("RESULT ")), None)
+        return json.loads(line[7:]) if line else None
+
+    bid_a, bid_b = "aa" * 20, "bb" * 20
+    try:
+        ws_a = mk("projA", b"A" * 8192)
+        ws_b = mk("projB", b"B" * 8192)
+        ra = run(op="install", share=os.path.join(root, via_a), ws=ws_a, bid=bid_a)
+        if not ra or not ra.get("ok") or not ra.get("installed") or not os.path.islink(ws_a):
+            ctx.skip("store alias scenario %s: project A could not install and link its package: %r" % (name, ra))
+            return
+        pkg_a = os.path.realpath(ra["path"])
+        steps = [("automatic gc of an install over the quota", dict(op="install", ws=ws_b, bid=bid_b)),
+                 ("gc(pruneUsed=False, pruneUnused=True) (bob clean --shared --all-unused)", dict(op="gc"))]
+        for what, a in steps:
+            r = run(share=os.path.join(root, via_b), check=ws_a, **a)
+            ctx.case(("store-alias", name, a["op"]), sample={"store-alias": name, "step": what, "result": r})
+            if r is None:
+                ctx.skip("store alias scenario %s: no result from the helper process (%s)" % (name, what))
+                return
+            if not r.get("ok"):
+                ctx.violation("store reached through an alias (%s): %s of project B fails: %s" % (name, what, r.get("exc")),
+                              case, "store-alias-op-failed:" + str(r.get("exc")).split(":")[0])
+                return
+            try:
+                with open(os.path.join(root, "store", "repo.json")) as f:
+                    listed = bid_a in json.load(f).get("pkgs", {})
+            except (OSError, ValueError):
+                listed = False
+            bad = []
+            if not os.path.isdir(os.path.join(pkg_a, "workspace")):
+                bad.append("package directory %s is gone" % pkg_a)
+            if not listed:
+                bad.append("repo.json does not list it any more")
+            if r.get("check") is None:
+                bad.append("A's workspace link %s -> %s dangles" % (ws_a, os.readlink(ws_a)))
+            elif r["check"] != ra["hash"]:
+                bad.append("A's workspace has content hash %s instead of %s" % (r["check"], ra["hash"]))
+            if r.get("collected"):
+                bad.append("gc reported %s as collected" % ", ".join(r["collected"]))
+            if bad:
+                ctx.violation("package used through an alias of the store collected by another project's gc (%s: A uses "
+                              "<tmp>/%s, B uses <tmp>/%s; %s): %s" % (name, via_a, via_b, what, "; ".join(bad)),
+                              case, "collected-while-linked:alias")
+                return
+        ctx.count("directed", "store-alias-" + name)
+    finally:
+        shutil.rmtree(root, ignore_errors=True)
+
+
 def quota_parse_check(ctx):
     from bob.share import LocalShare
     table = {"KiB": 1024, "MiB": 1024 ** 2, "GiB": 1024 ** 3, "TiB": 1024 ** 4, "K": 1024, "M": 1024 ** 2, "G": 1024 ** 3,
@@ -811,6 +932,9 @@ def oracle(ctx):
         _report(ctx, judge(traces), traces, "directed interleaving " + case["name"])
         ctx.count("directed", case["name"])
         _DIRECTED.append((case, traces, None))
+    # mandatory: two projects reaching the same store under different spellings of its path
+    for v in ALIAS_VARIANTS:
+        store_alias_case(ctx, v[0])
     if ctx.time_left() > ctx.scale(60, 300):
         end_to_end_empty_store(ctx)
     else:
@@ -1075,6 +1199,8 @@ def replay(ctx, case):
         end_to_end_empty_store(ctx)
     elif case.get("kind") == "quota":
         quota_parse_check(ctx)
+    elif case.get("kind") == "store-alias":
+        store_alias_case(ctx, case["variant"])
     elif case.get("kind") == "stress":
         stress(ctx)
 
